@@ -127,8 +127,9 @@ def run(ctx):
             st = np.asarray(diffusion_stencil_2d(epsilon=eps, theta=th, type=typ), dtype=float)
             ctx.case(('diffusion', eps, th, typ), True)
             ctx.count('diffusion')
-            dcases.append('(%d%%nat, (%s, %s, %s), %s)' % (ti, cq.fl(float(eps)), cq.fl(float(np.cos(float(th)))),
-                                                        cq.fl(float(np.sin(float(th)))), cq.lst([cq.fll(r) for r in st])))
+            Cc, Sc = np.cos(float(th)), np.sin(float(th))
+            dcases.append('(%d%%nat, (%s, %s, %s, %s), %s)' % (ti, cq.fl(float(eps)), cq.fl(float(Cc * Sc)), cq.fl(float(Cc ** 2)),
+                                                            cq.fl(float(Sc ** 2)), cq.lst([cq.fll(r) for r in st])))
             dmeta.append(dcase)
             if abs(st.sum()) > 1e-12 * np.abs(st).sum():
                 ctx.fail('diffusion_stencil_2d/sum-not-zero', 'sum %.3g' % st.sum(), dcase)
